@@ -106,6 +106,7 @@ class FakeFile:
         self.sock = sock
         self.pending = False
         self.closed = False
+        self.buf = []  # written, not yet flushed: the client has not got it
 
     def readline(self):
         item = self.sock.inq.get()
@@ -114,20 +115,31 @@ class FakeFile:
         return item
 
     def write(self, data):
-        self.sock.sim._on_response(self.sock, data)
         if self.sock.broken:
+            # nobody will ever read it; the oracle still learns what the server meant to answer
+            self.sock.sim._on_response(self.sock, data)
             self.pending = True
+        else:
+            self.buf.append(data)
+
+    def _deliver(self):
+        buf, self.buf = self.buf, []
+        for data in buf:
+            self.sock.sim._on_response(self.sock, data)
 
     def flush(self):
-        if self.sock.broken and self.pending:
+        if self.sock.broken and (self.pending or self.buf):
+            self.pending = True
             raise BrokenPipeError(32, "Broken pipe (connection reset by peer, injected)")
+        self._deliver()
 
     def close(self):
         if self.closed:
             return
         self.closed = True
-        if self.sock.broken and self.pending:
+        if self.sock.broken and (self.pending or self.buf):
             raise BrokenPipeError(32, "Broken pipe (connection reset by peer, injected)")
+        self._deliver()
 
 
 class FakeSock:
@@ -216,7 +228,16 @@ class QsSim:
         self.backdoor = False  # run the server with QSERVE_BACKDOOR set (see enable_backdoor)
         self._backdoors = []
         self._install()
-        self._start_server()
+        try:
+            self._start_server()
+        except (Exception, SystemExit) as e:  # noqa: BLE001
+            # on an empty data directory, with nothing else going on: the server is broken, and
+            # no property can be examined on it
+            import traceback
+            tb = traceback.format_exc()
+            self._uninstall()
+            raise Violation("X-dead", f"the queue server does not start: {type(e).__name__}: {e}",
+                            detail={"traceback": tb[-1200:]})
         self.clock.mono += PHASE
 
     # ---- seams -----------------------------------------------------------------
@@ -570,9 +591,15 @@ class QsSim:
         gl = [s.greenlet for s in self.socks.values() if s.greenlet is not None and not s.greenlet.dead]
         self.stopping = True
         try:
-            if not self.main_greenlet.dead:
-                self.main_greenlet.kill(block=True)
-            gevent.killall(gl, block=True)
+            try:
+                if not self.main_greenlet.dead:
+                    self.main_greenlet.kill(block=True)
+                gevent.killall(gl, block=True)
+            except gevent.exceptions.LoopExit:
+                # a server greenlet does not die when killed (it blocks again in its clean-up):
+                # leave it behind, the run's verdict is what counts
+                self.hub_errors.append(("LoopExit", "a server greenlet survived its kill"))
+                gevent.killall([g for g in gl if not g.dead], block=False)
             gevent.idle()
         finally:
             self.stopping = False
